@@ -130,7 +130,13 @@ def tab_b256(ctx):
             # the statements up to and including `let length = ..` as one block whose value is `length`
             linit = {"k": "Block", "ty": "usize", "span": dbody["body"]["span"], "stmts": dbody["body"]["stmts"][:k + 1],
                      "expr": {"k": "Var", "ty": "usize", "span": st["span"], "name": st["pat"]["name"]}}
-    need(linit is not None, r, db, "(let length = ..)")
+    if linit is None:
+        # no `let length = ..` prefix to fold on its own: the whole function is folded instead (b256dec_exec)
+        okx, detx = b256dec_exec(ctx)
+        need(okx is not None, r, db, "(let length = ..; and %s)" % detx)
+        obs.append(Ob(r, "length-dec", bool(okx), "decode_base256 reads back the length fields the encoder writes, 0 as `rest of symbol`, and d1 >= 250 as 250*(d1-249)+d2 - %s" % detx, site=T.span_str(dbody["span"])))
+        obs += floor(obs, r, 6, "Base256 table obligations")
+        return obs
     bad_l = None
     REST = 77
 
@@ -182,10 +188,110 @@ def tab_b256(ctx):
     return obs
 
 
+def b256dec_exec(ctx):
+    """decode_base256 folded as a whole (with the crate's own Reader and derandomize_255_state) on streams built from the standard's
+    255-state algorithm: for every run length 1..260 and a set of long lengths, with the length field the standard prescribes, at
+    three stream positions, with exactly enough / surplus / one-too-few codewords; plus the `0 = rest of symbol` field, every
+    two-codeword length field read against a too-short stream, and the empty stream.  Expected: the plain bytes are appended, the
+    reader is left right behind the run, the next mode is ASCII; a stream that ends early gives UnexpectedEnd.
+    (ok, description) | (None, why it does not fold)"""
+    return ctx.memo("b256dec_exec", lambda: list(_b256dec_exec(ctx)))
+
+
+def _b256dec_exec(ctx):
+    f = ctx.facts()
+    fn = "decodation::decode_base256"
+    b = f.thir.get(fn)
+    if b is None or len(b["params"]) != 2 or any(p_.get("pat", {}).get("k") != "Bind" for p_ in b["params"]):
+        return None, "decode_base256(data, out) not found"
+    pn = [p_["pat"]["name"] for p_ in b["params"]]
+    n_cases = [0]
+
+    def run(raw, p0):
+        rd = {"__adt__": "decodation::Reader", "__variant__": "Reader", "0": list(raw), "#0": list(raw), "1": p0, "#1": p0}
+        out = [1, 2]
+        fo = T.Folder(f, env={pn[0]: rd, pn[1]: out}, effects=True, local_calls=3)
+        fo.max_iter = 4000
+        n_cases[0] += 1
+        try:
+            res = fo.run(b["body"])
+        except T.Trap as ex:
+            return ("trap", str(ex))
+        if isinstance(res, dict) and res.get("__variant__") == "Err":
+            e = res.get("#0")
+            return ("err", e.get("__variant__") if isinstance(e, dict) else e)
+        if isinstance(res, dict) and res.get("__variant__") == "Ok":
+            res = res.get("#0")
+        if isinstance(res, (list, tuple)) and len(res) == 2 and isinstance(res[0], dict):
+            r2, mode = res
+            return ("ok", list(out[2:]), list(r2.get("#0", r2.get("0"))), r2.get("#1", r2.get("1")), mode.get("__variant__") if isinstance(mode, dict) else mode)
+        return ("other", repr(res)[:80])
+
+    def stream(hdr, payload, p0, tail=()):
+        plain = list(hdr) + list(payload)
+        return [iso_rand255(v, p0 + i + 1) for i, v in enumerate(plain)] + list(tail)
+
+    def hdr_for(n):
+        return [n] if n <= 249 else [n // 250 + 249, n % 250]
+    bad = None
+    try:
+        for n in list(range(1, 261)) + [499, 500, 501, 750, 1000, 1249, 1250, 1555]:
+            pay = [(7 * i + 3) % 256 for i in range(n)]
+            h = hdr_for(n)
+            for p0 in ((0, 3, 200) if n <= 12 or n in (249, 250, 251) else (3,)):
+                for tail in (((), (129, 65, 254)) if n <= 12 or n in (249, 250, 251, 1555) else ((129, 65, 254),)):
+                    got = run(stream(h, pay, p0, tail), p0)
+                    want = ("ok", pay, list(tail), p0 + len(h) + n, "Ascii")
+                    if got != want and bad is None:
+                        bad = "run of %d bytes at position %d (%d codewords follow): %s" % (n, p0 + 1, len(tail), _short(got, want))
+                got = run(stream(h, pay[:-1], p0), p0) if n <= 12 or n % 10 == 0 or n in (249, 251, 1555) else ("err", "UnexpectedEnd")
+                if got != ("err", "UnexpectedEnd") and bad is None:
+                    bad = "run of %d bytes with only %d present: %r, expected Err(UnexpectedEnd)" % (n, n - 1, got[:2])
+        for rest in (0, 1, 5, 40):
+            pay = [(11 * i + 5) % 256 for i in range(rest)]
+            got = run(stream([0], pay, 2), 2)
+            if got != ("ok", pay, [], 2 + 1 + rest, "Ascii") and bad is None:
+                bad = "length field 0 with %d codewords left: %s" % (rest, _short(got, ("ok", pay, [], 3 + rest, "Ascii")))
+        for d1 in range(250, 256):
+            for d2 in range(256):
+                n = 250 * (d1 - 249) + d2
+                got = run(stream([d1, d2], [9] * 3, 1), 1)
+                if got != ("err", "UnexpectedEnd") and bad is None:
+                    bad = "length field [%d, %d] (= %d bytes) with 3 present: %r, expected Err(UnexpectedEnd)" % (d1, d2, n, got[:2])
+            got = run(stream([d1], [], 1), 1)
+            if got != ("err", "UnexpectedEnd") and bad is None:
+                bad = "length field [%d] without its second codeword: %r, expected Err(UnexpectedEnd)" % (d1, got[:2])
+        got = run([], 4)
+        if got != ("err", "UnexpectedEnd") and bad is None:
+            bad = "empty stream: %r, expected Err(UnexpectedEnd)" % (got[:2],)
+    except T.Undecidable as ex:
+        return (None, "decode_base256 does not fold (%s)" % ex)
+    return (bad is None, bad or "%d streams (every run length 1..260 and long runs with the standard's length field, field 0, all 1536 two-codeword fields, short streams)" % n_cases[0])
+
+
+def _short(got, want):
+    if got[0] != "ok":
+        return "%r" % (got,)
+    names = ("", "appended bytes", "codewords left", "reader position", "next mode")
+    for k in range(1, 5):
+        if got[k] != want[k]:
+            g, w = got[k], want[k]
+            if isinstance(g, list) and isinstance(w, list):
+                return "%s differ (%d vs %d; first %r vs %r)" % (names[k], len(g), len(w), g[:3], w[:3])
+            return "%s is %r, expected %r" % (names[k], g, w)
+    return "?"
+
+
 def dec_b256(ctx):
     r = "DEC-B256"
     f = ctx.facts()
     obs = []
+    okx, detx = b256dec_exec(ctx)
+    if okx is not None:
+        site0 = T.span_str(f.thir["decodation::decode_base256"]["span"])
+        obs.append(Ob(r, "end-only-by-eat", bool(okx), "decode_base256 reports UnexpectedEnd exactly when the stream ends inside the field (a field whose bytes are all present is never refused) - %s" % detx, site=site0))
+        obs.append(Ob(r, "payload-loop", bool(okx), "exactly `length` codewords are eaten and each is de-randomised for its position and pushed - %s" % detx, site=site0))
+        return obs
     body = find_body(f, "decodation::decode_base256", r)
     # Err edges of Reader::eat results
     err_edges = []
